@@ -67,6 +67,12 @@ CHECKS = {
    note="Trusted: TLC, stub plugin servers' logs. Plain HTTP plugins on loopback; new-user-connection hook on the direct tcp path.",
    technique="TLA+ spec FrpsPlugins model-checked with TLC (all chains) + validation of real plugin manager / frps call-site executions (Trace_FrpsPlugins)",
    design="4 (C15), 3.7"),
+ "C19": dict(
+   level="model_checking",
+   text="FrpcProxies specifies the health monitor as a machine over probe outcomes (TLC checks WithdrawExactly, WithdrawNotLater, RegisteredAgainAfterSuccess for maxFailed 1..3 over all outcome sequences up to length 10) and the legal phase transitions of a proxy; real health.Monitor instances with scripted per-probe backend states, the real client proxy.Manager under seeded reload sequences (add, remove, change, reorder, duplicate names, identical reloads) with server replies ok / error / none, and the real visitor manager with bind ports taken and freed by the driver are recorded, and TLC validates every probe, status callback, NewProxy / CloseProxy message (incl. not-before-back-off timing), reported phase and listening visitor port against the specification (Trace_FrpcProxies).",
+   note="Trusted: TLC, hook on each probe, the scripted transporter. Timing variables shrunk through verif-only setters; tcp probes only; traffic interruption of unchanged entries is judged by the absence of Close/New messages for them.",
+   technique="TLA+ spec FrpcProxies model-checked with TLC + trace validation of real client-side executions (Trace_FrpcProxies)",
+   design="4 (C19), 3.8"),
 }
 
 hooks_commits = subprocess.run("git -C /repo log --format=%h --grep='^verif:' --reverse", shell=True, capture_output=True, text=True).stdout.split()
